@@ -265,6 +265,15 @@ func (p *uPacketPacker) appendInitialPacketPayload(buffer *packetBuffer, header 
 		}
 	}
 
+	// [UQUIC] The header protection sample is taken 4 bytes after the start of the packet
+	// number: packet number and payload must be at least 4 bytes long (RFC 9001, section
+	// 5.4.2), or the packet cannot be opened by any receiver. The packer's own padding never
+	// sees a payload produced here (e.g. a PTO probe after a planned flight that carries
+	// nothing but a PING), so pad with PADDING frames as packetPacker.appendPacketPayload does.
+	if n := 4 - int(pnLen) - len(uPayload); n > 0 {
+		uPayload = append(uPayload, make([]byte, n)...)
+	}
+
 	header.Length = pnLen + protocol.ByteCount(sealer.Overhead()) + protocol.ByteCount(len(uPayload))
 
 	startLen := len(buffer.Data)
@@ -482,6 +491,12 @@ func (p *uPacketPacker) MarshalInitialPacketPayload(pl payload, v protocol.Versi
 	// them.
 	if p.flightPlanned {
 		var frameBytes []byte
+		if pl.ack != nil { // part of what the packer produced: without it a probe that only acknowledges has no frame at all
+			var err error
+			if frameBytes, err = pl.ack.Append(frameBytes, v); err != nil {
+				return nil, err
+			}
+		}
 		for _, f := range pl.frames {
 			var err error
 			if frameBytes, err = f.Frame.Append(frameBytes, v); err != nil {
